@@ -1071,6 +1071,74 @@ fn norm_ws(s: &str) -> String {
     s.split_whitespace().collect::<Vec<_>>().join(" ")
 }
 
+/// Declared substitution patterns may contain identifier wildcards `$name` (so that a renamed local
+/// or closure parameter does not lose the rewrite): a wildcard matches one maximal identifier, the
+/// same name must match the same identifier everywhere, and `$name` in the replacement stands for
+/// it. Returns (offset, matched length, bindings) of every non-overlapping match.
+fn find_pattern(region: &str, pat: &str) -> Vec<(usize, usize, Vec<(String, String)>)> {
+    // tokenise the pattern
+    enum Tok { Lit(String), Var(String) }
+    let mut toks: Vec<Tok> = vec![];
+    let pb = pat.as_bytes();
+    let mut i = 0;
+    let mut cur = String::new();
+    while i < pb.len() {
+        if pb[i] == b'$' && i + 1 < pb.len() && (pb[i + 1].is_ascii_alphabetic() || pb[i + 1] == b'_') {
+            let mut j = i + 1;
+            while j < pb.len() && (pb[j].is_ascii_alphanumeric() || pb[j] == b'_') { j += 1; }
+            if !cur.is_empty() { toks.push(Tok::Lit(std::mem::take(&mut cur))); }
+            toks.push(Tok::Var(pat[i + 1..j].to_string()));
+            i = j;
+        } else {
+            // patterns are ASCII in practice; keep multi-byte characters intact
+            let ch = pat[i..].chars().next().unwrap();
+            cur.push(ch);
+            i += ch.len_utf8();
+        }
+    }
+    if !cur.is_empty() { toks.push(Tok::Lit(cur)); }
+    if toks.iter().all(|t| matches!(t, Tok::Lit(_))) {
+        return region.match_indices(pat).map(|(i, _)| (i, pat.len(), vec![])).collect();
+    }
+    let rb = region.as_bytes();
+    let is_id = |c: u8| c.is_ascii_alphanumeric() || c == b'_';
+    let mut out = vec![];
+    let mut start = 0;
+    while start < rb.len() {
+        if !region.is_char_boundary(start) { start += 1; continue; }
+        let mut p = start;
+        let mut binds: Vec<(String, String)> = vec![];
+        let mut ok = true;
+        for (ti, t) in toks.iter().enumerate() {
+            match t {
+                Tok::Lit(l) => {
+                    if region[p..].starts_with(l.as_str()) { p += l.len(); } else { ok = false; break; }
+                }
+                Tok::Var(name) => {
+                    // an identifier must start here (and not in the middle of one when the wildcard opens the pattern)
+                    if ti == 0 && p > 0 && is_id(rb[p - 1]) { ok = false; break; }
+                    let mut q = p;
+                    while q < rb.len() && is_id(rb[q]) { q += 1; }
+                    if q == p || rb[p].is_ascii_digit() { ok = false; break; }
+                    let id = &region[p..q];
+                    match binds.iter().find(|(k, _)| k == name) {
+                        Some((_, v)) => { if v != id { ok = false; break; } }
+                        None => binds.push((name.clone(), id.to_string())),
+                    }
+                    p = q;
+                }
+            }
+        }
+        if ok && p > start {
+            out.push((start, p - start, binds));
+            start = p;
+        } else {
+            start += 1;
+        }
+    }
+    out
+}
+
 fn main() {
     let args: Vec<String> = std::env::args().collect();
     if args.len() != 5 {
@@ -1533,16 +1601,20 @@ fn emit_fn(src: &Src, path: &str, fd: &FnDir, bm: &[(String, String)], unit: &st
         let all = w.ends_with('*');
         let (lo, hi) = if w.starts_with("sig") { (fn_start, body_open.0) } else { (body_open.0, fn_end) };
         let region = &src.text[lo..hi];
-        let hits: Vec<usize> = region.match_indices(o.as_str()).map(|(i, _)| i).collect();
+        let hits: Vec<(usize, usize, Vec<(String, String)>)> = find_pattern(region, o.as_str());
         if (all && hits.is_empty()) || (!all && hits.len() != 1) {
             // the construct this declared rewrite is about is no longer there (changed code): the
             // function is extracted without it and treated like one that lost a proof hint
             lost_hints.push(json!({"fn": format!("{}::{}", src.rel, path), "at": format!("subst {} {:?}", w, o), "clause": "", "matches": hits.len(), "vrs_line": fd.vrs_line}));
             continue;
         }
-        for h in hits {
+        for (h, len, binds) in hits {
             let s = lo + h;
-            edits.push(Edit { start: s, end: s + o.len(), rule: "RS".into(), parts: vec![lit(n)], origin: None, prio: 0 });
+            let mut repl = n.clone();
+            for (k, v) in &binds {
+                repl = repl.replace(&format!("${}", k), v);
+            }
+            edits.push(Edit { start: s, end: s + len, rule: "RS".into(), parts: vec![lit(&repl)], origin: None, prio: 0 });
         }
     }
 
